@@ -60,6 +60,8 @@ class G:
         if k == 6 and env.get("res"):
             return r.choice(env["res"])
         if k == 7:
+            if r.chance(1, 12):
+                return r.choice(["bump_a()", "bump_b()"])
             return "clamp(%s, 0.0, 1.0)" % self.fexpr(env, d + 1)
         return "mix(%s, %s, 0.5)" % (self.fexpr(env, d + 1), self.fexpr(env, d + 1))
 
@@ -76,6 +78,8 @@ class G:
             return "!%s" % self.cond(env, d + 1)
         if k == 4 and env["b"]:
             return r.choice(env["b"])
+        if r.chance(1, 2):
+            return "%s(vec2<i32>(pv, %s) < vec2<i32>(%s))" % (r.choice(["all", "any"]), self.iexpr(env, d + 1), self.iexpr(env, d + 1))
         return "(vec2<i32>(pv, %s) < vec2<i32>(%s)).%s" % (self.iexpr(env, d + 1), self.iexpr(env, d + 1), r.choice("xy"))
 
     # ---- statements ----
@@ -271,6 +275,12 @@ class G:
         rd = {"array<f32>": "sb.data[1]", "array<vec4<f32>>": "sb.data[1].y", "array<Inner>": "f32(arrayLength(&sb.data))",
               "array<u32>": "f32(sb.data[2])", "array<mat2x2<f32>>": "sb.data[0][1].x"}[dty]
         lines.append("fn sb_read() -> f32 { return %s; }" % rd)
+        # globals touched only inside small functions that are called from few, random places (possibly only from an
+        # else branch, a loop's continuing block or a switch case): the entry point's interface must still list them
+        lines.append("var<private> only_a: f32 = 1.0;")
+        lines.append("fn bump_a() -> f32 { only_a = only_a * 0.5; return only_a; }")
+        lines.append("var<private> only_b: vec2<f32>;")
+        lines.append("fn bump_b() -> f32 { only_b.y += 1.0; return only_b.x + bump_a(); }")
         effects = []
         if rw:
             wr = {"array<f32>": "sb.data[%s] = %s;", "array<vec4<f32>>": "sb.data[%s].z = %s;", "array<Inner>": "pf[u32(%s) %% 3u] = %s;",
